@@ -48,10 +48,23 @@ pub fn worker(prop: &str, tier: Tier, seed: u64, w: u64, nw: u64, n: u64, skip_t
     }
 }
 
+/// every spawned worker process gets its own generation number: messages of a worker that the watchdog has killed and
+/// replaced must not be attributed to its replacement in the same slot
+static WORKER_GEN: std::sync::atomic::AtomicU64 = std::sync::atomic::AtomicU64::new(1);
+
+/// CPU time (user + system, in clock ticks) a process has consumed so far
+fn proc_cpu_ticks(pid: u32) -> Option<u64> {
+    let s = std::fs::read_to_string(format!("/proc/{pid}/stat")).ok()?;
+    let rest = &s[s.rfind(')')? + 2..];
+    let f: Vec<&str> = rest.split_whitespace().collect();
+    Some(f.get(11)?.parse::<u64>().ok()? + f.get(12)?.parse::<u64>().ok()?)
+}
+
+/// (slot, generation, ..)
 enum Msg {
-    Start(u64, u64),
-    Result(u64, serde_json::Value),
-    Eof(u64),
+    Start(u64, u64, u64),
+    Result(u64, u64, serde_json::Value),
+    Eof(u64, u64),
 }
 
 struct WorkerProc {
@@ -59,6 +72,11 @@ struct WorkerProc {
     current: Option<u64>,
     last: Instant,
     done: bool,
+    generation: u64,
+    /// CPU ticks of the child when `last` was set, and how often the watchdog has already granted more time because
+    /// the child had hardly been scheduled (an overloaded machine is not a hang)
+    cpu_at_last: u64,
+    extensions: u32,
 }
 
 fn spawn_worker(prop: &str, tier: Tier, seed: u64, w: u64, nw: u64, n: u64, skip_to: u64, tx: mpsc::Sender<Msg>) -> WorkerProc {
@@ -70,23 +88,25 @@ fn spawn_worker(prop: &str, tier: Tier, seed: u64, w: u64, nw: u64, n: u64, skip
         .spawn()
         .expect("spawn worker");
     let so = child.stdout.take().unwrap();
+    let generation = WORKER_GEN.fetch_add(1, std::sync::atomic::Ordering::SeqCst);
     std::thread::spawn(move || {
         let rd = BufReader::new(so);
         for line in rd.lines() {
             let Ok(line) = line else { break };
             if let Some(r) = line.strip_prefix("S ") {
                 if let Ok(i) = r.trim().parse() {
-                    let _ = tx.send(Msg::Start(w, i));
+                    let _ = tx.send(Msg::Start(w, generation, i));
                 }
             } else if let Some(r) = line.strip_prefix("R ") {
                 if let Ok(v) = serde_json::from_str::<serde_json::Value>(r) {
-                    let _ = tx.send(Msg::Result(w, v));
+                    let _ = tx.send(Msg::Result(w, generation, v));
                 }
             }
         }
-        let _ = tx.send(Msg::Eof(w));
+        let _ = tx.send(Msg::Eof(w, generation));
     });
-    WorkerProc { child, current: None, last: Instant::now(), done: false }
+    let cpu_at_last = proc_cpu_ticks(child.id()).unwrap_or(0);
+    WorkerProc { child, current: None, last: Instant::now(), done: false, generation, cpu_at_last, extensions: 0 }
 }
 
 pub struct Found {
@@ -123,15 +143,25 @@ pub fn run_batch(prop: &str, tier: Tier, seed: u64, n: u64, wall_cap: Duration) 
             break;
         }
         match rx.recv_timeout(Duration::from_millis(500)) {
-            Ok(Msg::Start(w, i)) => {
+            Ok(Msg::Start(w, g, i)) => {
                 let p = &mut procs[w as usize];
+                if p.generation != g {
+                    continue; // a worker the watchdog has replaced
+                }
                 p.current = Some(i);
                 p.last = Instant::now();
+                p.cpu_at_last = proc_cpu_ticks(p.child.id()).unwrap_or(p.cpu_at_last);
+                p.extensions = 0;
             }
-            Ok(Msg::Result(w, v)) => {
+            Ok(Msg::Result(w, g, v)) => {
                 let p = &mut procs[w as usize];
+                if p.generation != g {
+                    continue;
+                }
                 p.current = None;
                 p.last = Instant::now();
+                p.cpu_at_last = proc_cpu_ticks(p.child.id()).unwrap_or(p.cpu_at_last);
+                p.extensions = 0;
                 let idx = v["idx"].as_u64().unwrap_or(0);
                 let o: Outcome = match serde_json::from_value(v["o"].clone()) {
                     Ok(o) => o,
@@ -165,8 +195,11 @@ pub fn run_batch(prop: &str, tier: Tier, seed: u64, n: u64, wall_cap: Duration) 
                     }
                 }
             }
-            Ok(Msg::Eof(w)) => {
+            Ok(Msg::Eof(w, g)) => {
                 let p = &mut procs[w as usize];
+                if p.generation != g {
+                    continue;
+                }
                 let st = p.child.wait().ok();
                 if let Some(i) = p.current.take() {
                     // died in the middle of a run (abort / stack overflow / OOM)
@@ -185,6 +218,15 @@ pub fn run_batch(prop: &str, tier: Tier, seed: u64, n: u64, wall_cap: Duration) 
         for w in 0..procs.len() {
             let p = &mut procs[w];
             if !p.done && p.current.is_some() && p.last.elapsed() > Duration::from_secs(hang_secs) {
+                // a run that has had less than a quarter of the limit in CPU time was starved, not hung (up to 20 times)
+                let cpu = proc_cpu_ticks(p.child.id()).unwrap_or(u64::MAX);
+                if cpu.saturating_sub(p.cpu_at_last) < hang_secs * 100 / 4 && p.extensions < 20 {
+                    p.extensions += 1;
+                    p.last = Instant::now();
+                    p.cpu_at_last = cpu;
+                    *res.stats.entry("batch.watchdog_extension_for_a_starved_worker".into()).or_insert(0) += 1;
+                    continue;
+                }
                 let i = p.current.take().unwrap();
                 let _ = p.child.kill();
                 let _ = p.child.wait();
@@ -533,11 +575,11 @@ pub fn determinism_from(prop: &str, n: u64, from: u64) -> i32 {
         let mut eofs = 0;
         while eofs < nw {
             match rx.recv() {
-                Ok(Msg::Result(_, v)) => {
+                Ok(Msg::Result(_, _, v)) => {
                     let idx = v["idx"].as_u64().unwrap();
                     m.insert(idx, (v["o"]["log_hash"].as_u64().unwrap(), v["o"]["events"].as_u64().unwrap()));
                 }
-                Ok(Msg::Eof(_)) => eofs += 1,
+                Ok(Msg::Eof(_, _)) => eofs += 1,
                 Ok(_) => {}
                 Err(_) => break,
             }
